@@ -880,23 +880,9 @@ func (c *Ctx) c12Privmsg(f *ircFacts) {
 					}
 					return false
 				}
-				// the edge's condition is a disjunction of clauses: each alternative must contain an accepted literal
-				cls := c.clausesOf(info, fi.Node(), e.Cond, e.Val, 0)
-				if len(cls) == 0 {
-					return false
-				}
-				for _, cl := range cls {
-					has := false
-					for _, l := range cl {
-						if okLit(l) {
-							has = true
-						}
-					}
-					if !has {
-						return false
-					}
-				}
-				return true
+				// clausesOf yields a conjunction of clauses, each a disjunction of literals: the edge implies the gate
+				// iff some clause consists of accepted literals only
+				return implied(c.clausesOf(info, fi.Node(), e.Cond, e.Val, 0), okLit)
 			}
 			reach := g.Reach(g.Entry, nil, pass)
 			r.Check(!reach[v], "C12.T6", fi.Name(), "private message to a +G user only from someone sharing a channel", c.P.Pos(call.Pos()), "every path passes !modes['G'] or the common-channel flag",
